@@ -3,6 +3,7 @@ mod env;
 mod obs;
 mod props;
 mod report;
+mod world;
 
 use report::Tier;
 
